@@ -10,4 +10,13 @@ pub(crate) mod verif_idpf_util {
     pub fn empty_input() -> IdpfInput { unsafe { core::mem::MaybeUninit::<IdpfInput>::zeroed().assume_init() } }
     pub fn stub_from_bytes(_bytes: &[u8]) -> IdpfInput { empty_input() }
     pub fn stub_prefix(_s: &IdpfInput, _level: usize) -> IdpfInput { empty_input() }
+    /// Contract stub of Idpf::eval for harnesses of its callers (the IDPF itself is C06): returns an inner-level share
+    /// (the all-zero value) and counts the evaluations; nothing is read from the placeholder arguments.
+    pub static mut EVAL_CALLS: usize = 0;
+    pub fn eval_stub_inner_zero<VI: IdpfValue, VL: IdpfValue>(s: &Idpf<VI, VL>, _agg_id: usize, _ps: &IdpfPublicShare<VI, VL>, _key: &crate::vdaf::xof::Seed<16>,
+        _prefix: &IdpfInput, _ctx: &[u8], _nonce: &[u8], _cache: &mut dyn IdpfCache) -> Result<IdpfOutputShare<VI, VL>, IdpfError> {
+        unsafe { EVAL_CALLS += 1; }
+        Ok(IdpfOutputShare::Inner(VI::zero(&s.inner_node_value_parameter)))
+    }
+    pub fn placeholder_public_share<VI, VL>() -> IdpfPublicShare<VI, VL> { unsafe { core::mem::MaybeUninit::<IdpfPublicShare<VI, VL>>::zeroed().assume_init() } }
 }
